@@ -302,6 +302,27 @@ fn check_patterns(pats: &[&str]) -> Result<bool, (&'static str, String)> {
   Ok(!line.contains(&naive))
 }
 
+/// Lists in which some entries are empty.  The property speaks about the non-empty patterns only, and an empty entry
+/// is allowed to do whatever it does to its own `--exclude`; what must still hold is that every NON-empty pattern of the
+/// list comes back, in order, as the word after an `--exclude` word, and that the surrounding arguments are intact.
+fn check_sparse_list(pats: &[&str]) -> Result<bool, (&'static str, String)> {
+  let text = crate::udev_utils::verif_build_service_text(pats);
+  let line = text.split('\n').find(|l| l.starts_with("ExecStart=")).unwrap_or("").to_string();
+  let argv = read_execstart(&text).map_err(|e| ("exec-line-invalid", format!("systemd would reject the line ({}): {}", e, line)))?;
+  let frame = expected_argv(&[]);
+  let n = argv.len();
+  if n < frame.len() || argv[..6] != frame[..6] || argv[n - 2..] != frame[6..] {
+    return Err(("argument-vector-damaged", format!("list with empty entries {:?}: surrounding arguments changed; read back {}; line: {}", pats, show(&argv), line)));
+  }
+  let mut i = 6;
+  for p in pats.iter().filter(|p| !p.is_empty()) {
+    let mut found = false;
+    while i + 1 < n - 2 { if argv[i] == b"--exclude" && argv[i + 1] == p.as_bytes() { found = true; i += 2; break; } i += 1; }
+    if !found { return Err(("non-empty-pattern-lost-next-to-empty-one", format!("list {:?}: the non-empty pattern {:?} does not come back as `--exclude <pattern>`; read back {}; line: {}", pats, p, show(&argv), line))); }
+  }
+  Ok(true)
+}
+
 #[derive(Default)]
 struct Acc {
   evaluations: u64,
@@ -325,6 +346,18 @@ impl Acc {
     self.evaluations += 1;
     match check_patterns(pats) {
       Ok(nt) => { if nt { self.nontrivial += 1; } }
+      Err((clause, detail)) => {
+        self.nontrivial += 1;
+        let e = self.fails.entry((clause, class_of(pats))).or_insert((0, vec![], detail));
+        e.0 += 1;
+        if e.1.is_empty() { e.1 = pats.iter().map(|s| s.to_string()).collect(); }
+      }
+    }
+  }
+  fn run_sparse(&mut self, pats: &[&str]) {
+    self.evaluations += 1;
+    match check_sparse_list(pats) {
+      Ok(_) => { self.nontrivial += 1; }
       Err((clause, detail)) => {
         self.nontrivial += 1;
         let e = self.fails.entry((clause, class_of(pats))).or_insert((0, vec![], detail));
@@ -393,6 +426,16 @@ pub fn run(ctx: &Ctx) -> Outcome {
     acc.run(&l);
   }, |a, b| a.merge(b));
   total.merge(a3);
+  // (iii-b) lists of 2..=4 entries over the same short patterns and the EMPTY string, at least one of each kind
+  {
+    let mut ext: Vec<&str> = vec![""]; for x in sub.iter().take(10) { ext.push(x); }
+    let ne = ext.len();
+    for len in 2..=4usize { for idx in 0..ne.pow(len as u32) {
+      let mut j = idx; let mut l: Vec<&str> = vec![];
+      for _ in 0..len { l.push(ext[j % ne]); j /= ne; }
+      if l.iter().any(|p| p.is_empty()) && l.iter().any(|p| !p.is_empty()) { total.run_sparse(&l); }
+    } }
+  }
   let n_lists = total.evaluations - before;
   // (iv) sizes: every alphabet character repeated n times, and lists of n patterns, n around every power of two up to 257
   let sizes = [1usize, 2, 3, 4, 7, 8, 9, 15, 16, 17, 31, 32, 33, 63, 64, 65, 127, 128, 129, 255, 256, 257];
@@ -452,7 +495,7 @@ pub fn run(ctx: &Ctx) -> Outcome {
   o.cov("long_patterns_and_long_lists", n_sizes);
   o.cov("template_fragment_patterns", n_frags);
   o.cov("exhaustive", true);
-  o.cov("rule", format!("(i) every Unicode scalar value except NUL as a one-character pattern and embedded as a<c>b; (ii) every string of length 1..={} over the {}-character syntax alphabet; (iii) every list of 1..=3 patterns over {} short patterns; (iv) every alphabet character repeated n times and lists of n patterns for n around every power of two up to 257; (v) 20 fragments of the unit template itself, alone, concatenated and paired; plus the empty list. Each input goes through the real build_service_text and the ExecStart line is read back by the reference reader; distinct_nontrivial = inputs (all distinct by construction) whose pattern text had to be changed by the escaper, i.e. the raw pattern does not appear verbatim in the line.", maxlen, alpha.len(), sub.len()));
+  o.cov("rule", format!("(i) every Unicode scalar value except NUL as a one-character pattern and embedded as a<c>b; (ii) every string of length 1..={} over the {}-character syntax alphabet; (iii) every list of 1..=3 patterns over {} short patterns, and every list of 2..=4 entries over ten of them and the empty string with at least one empty and one non-empty entry (oracle for those: every non-empty pattern comes back in order as the word after an `--exclude`, surrounding arguments intact); (iv) every alphabet character repeated n times and lists of n patterns for n around every power of two up to 257; (v) 20 fragments of the unit template itself, alone, concatenated and paired; plus the empty list. Each input goes through the real build_service_text and the ExecStart line is read back by the reference reader; distinct_nontrivial = inputs (all distinct by construction) whose pattern text had to be changed by the escaper, i.e. the raw pattern does not appear verbatim in the line.", maxlen, alpha.len(), sub.len()));
   o.cov("samples", json!([
     {"patterns": ["*Mouse*"], "exec_start": crate::udev_utils::verif_build_service_text(&["*Mouse*"]).split('\n').find(|l| l.starts_with("ExecStart=")).unwrap_or("")},
     {"patterns": ["it's 100% $HOME"], "exec_start": crate::udev_utils::verif_build_service_text(&["it's 100% $HOME"]).split('\n').find(|l| l.starts_with("ExecStart=")).unwrap_or("")},
